@@ -213,12 +213,15 @@ Proof.
   destruct G as [CS Hll Hgr Hnll [Hsig M]].
   rewrite (step_ws_unfold ntoks i st _ (groups_under _ _ Hgr) Hadj).
   assert (Hslc : space_list_check st (first_group fs) = Ok true).
-  { destruct CS as [[Sp D F O] Cl _ _ _].
+  { destruct (closed_operand_root _ _ _ (lk_den _ _ _ (cs_linked _ _ _ CS)) (cs_closed _ _ _ CS)) as (ln & Hln & Hcalm).
+    destruct (calm_facts _ Hcalm) as (Hse & _).
+    destruct CS as [[Sp D F O] Cl _ _ _].
+    apply (slc_operand st _ (nid t) ln Hll Hln Hse).
     destruct t as [j d k|j d k a|j d k a|j d k l r|j k a]; simpl in Cl; try contradiction;
-      simpl in D; destruct D as (n & Hn & A); cbn [nid] in Hll; apply (slc_operand st _ j n Hll Hn).
+      simpl in D; destruct D as (n & Hn & A); cbn [nid] in Hln; rewrite Hn in Hln; injection Hln as <-.
     - left. destruct A as (_ & _ & A3 & _). apply prio10_value_like. exact A3.
     - right. left. apply A.
-    - right. right. destruct A as (_ & A2 & _). split; [exact A2|].
+    - right. right. destruct A as (_ & A2 & _). split; [exact A2|]. cbn [nid].
       destruct (first_group fs) as [g|] eqn:Eg; [|reflexivity]. apply opt_nat_eqb_some_neq.
       pose proof (frames_have_lt _ _ _ F (first_group_has _ _ Eg)) as R. simpl in R. lia. }
   rewrite Hslc. cbn [bind]. rewrite Hll. eexists. split; [reflexivity|]. split; [|reflexivity].
